@@ -1,9 +1,9 @@
 CONSTANTS
-  Operands <- SimOperands
+  Operands <- AllOperands
   Binary <- AllBinary
   Prefix = {"u-", "u+"}
   Postfix = {"%"}
-  Calls <- SimCalls
+  Calls <- AllCalls
   Parens = TRUE
   MaxLen = 9
   MinExport = 6
